@@ -31,6 +31,7 @@ func ops(q string, shared *expr.Expression) []func() string {
 	return []func() string{
 		func() string { e, err := lucene.Parse(q); return fmt.Sprintf("%#v|%v", e, err) },
 		func() string { e, err := lucene.Parse(q, lucene.WithDefaultField("D")); return fmt.Sprintf("%#v|%v", e, err) },
+		func() string { e, err := lucene.Parse(q, lucene.WithDefaultField("E")); return fmt.Sprintf("%#v|%v", e, err) },
 		func() string { s, err := lucene.ToPostgres(q); return fmt.Sprintf("%q|%v", s, err) },
 		func() string { s, p, err := lucene.ToParameterizedPostgres(q); return fmt.Sprintf("%q|%#v|%v", s, p, err) },
 		func() string { s, err := pd.Render(shared); return fmt.Sprintf("%q|%v", s, err) },
